@@ -95,6 +95,11 @@ func (s *streamWS) RecvMsg(m interface{}) error {
 			if errors.As(err, &closed) && (closed.Code == ws.StatusNormalClosure || closed.Code == ws.StatusNoStatusRcvd) {
 				return io.EOF // a normal closure is the clean end of the stream
 			}
+			if err == io.EOF {
+				// The connection ended without a close frame (possibly inside
+				// a frame header): an abnormal closure, not a clean end.
+				return io.ErrUnexpectedEOF
+			}
 			return err
 		}
 
